@@ -41,6 +41,8 @@ mutual
     | nil
     /-- a plain field (`int`/`str`) with its `field.default` (`none` = MISSING) -/
     | leaf (name : Str) (conv : BConv) (dflt : Option Scalar) (rest : Flds)
+    /-- a field declared with `cmd=False`: no field wrapper, no option (dataclass_wrapper.py:77-79) -/
+    | hidden (name : Str) (dflt : Scalar) (rest : Flds)
     /-- `name = subgroups({key: alt…}, default=dflt)`; `dflt = none` = MISSING -/
     | sub (name : Str) (dflt : Option Str) (alts : Alts) (rest : Flds)
   /-- the `subgroups` dict in insertion order -/
@@ -69,6 +71,7 @@ mutual
   def Flds.depth : Flds → Nat
     | .nil => 0
     | .leaf _ _ _ rest => rest.depth
+    | .hidden _ _ rest => rest.depth
     | .sub _ _ alts rest => max (alts.depth + 1) rest.depth
   def Alts.depth : Alts → Nat
     | .nil => 0
@@ -102,10 +105,21 @@ def recsOf (parentDest : Str) (level : Nat) (kw : Kw) (forced : Bool) : Flds →
     { fr := { name := n, parentDest := parentDest, level := level, aliases := [], pref := [] },
       kind := .leaf c (match kw.lookup n with | some v => some v | none => d) }
       :: recsOf parentDest level kw forced rest
+  | .hidden _ _ rest => recsOf parentDest level kw forced rest
   | .sub n d alts rest =>
     { fr := { name := n, parentDest := parentDest, level := level, aliases := [], pref := [] },
       kind := .sub d forced alts }
       :: recsOf parentDest level kw forced rest
+
+/-- the `cmd=False` fields of a wrapped entry never reach the constructor arguments, so their value is
+    whatever the entry itself produces: the partial keyword / the instance's attribute
+    (`functools.partial(dataclasses.replace, instance)`, parsing.py:707-710), else the class default -/
+def hiddenOf (dest : Str) (kw : Kw) : Flds → List (Str × Val)
+  | .nil => []
+  | .leaf _ _ _ rest => hiddenOf dest kw rest
+  | .sub _ _ _ rest => hiddenOf dest kw rest
+  | .hidden n d rest =>
+    (dest ++ '.' :: n, .sc (match kw.lookup n with | some v => v | none => d)) :: hiddenOf dest kw rest
 
 /-- `add_argument(*option_strings, **arg_options)` of a field (field_wrapper.py:231-276 for a choice
     field: `type=str`, `choices=keys`, `required = default is MISSING`; the plain branch otherwise) -/
@@ -215,6 +229,7 @@ structure RState where
   recs : List SRec                  -- all field wrappers, `_flatten_wrappers` order
   resolved : List (Str × Str)       -- `resolved_subgroups`: dest ↦ chosen key
   classes : List (Str × Str)        -- dest ↦ name of the dataclass wrapped for the chosen entry
+  hidden : List (Str × Val)         -- values of the `cmd=False` fields of the root and the chosen entries
   ctbl : List Act                   -- the arguments added to `subgroup_choice_parser` so far
 
 inductive ROut (α : Type)
@@ -254,8 +269,8 @@ def insertChild (p : Str) (new : List SRec) : List SRec → List SRec
 
 /-- parsing.py:690-750 for one resolved subgroup field -/
 def expandOne (ns : List (Str × Val)) (r : SRec)
-    (acc : List SRec × List (Str × Str) × List (Str × Str)) :
-    Except Exc (List SRec × List (Str × Str) × List (Str × Str)) :=
+    (acc : List SRec × List (Str × Str) × List (Str × Str) × List (Str × Val)) :
+    Except Exc (List SRec × List (Str × Str) × List (Str × Str) × List (Str × Val)) :=
   match r.kind with
   | .leaf .. => .ok acc
   | .sub _ _ alts =>
@@ -266,12 +281,12 @@ def expandOne (ns : List (Str × Val)) (r : SRec)
        | some (kind, kw, cls) =>
          let new := recsOf r.dest (r.fr.level + 1) kw (kind == .inst) cls.fields
          .ok (insertChild r.fr.parentDest new acc.1, acc.2.1 ++ [(r.dest, k)],
-              acc.2.2 ++ [(r.dest, cls.name)]))
+              acc.2.2.1 ++ [(r.dest, cls.name)], acc.2.2.2 ++ hiddenOf r.dest kw cls.fields))
     | _ => .error .assertionError
 
 def expandAll (ns : List (Str × Val)) :
-    List SRec → List SRec × List (Str × Str) × List (Str × Str) →
-    Except Exc (List SRec × List (Str × Str) × List (Str × Str))
+    List SRec → List SRec × List (Str × Str) × List (Str × Str) × List (Str × Val) →
+    Except Exc (List SRec × List (Str × Str) × List (Str × Str) × List (Str × Val))
   | [], acc => .ok acc
   | r :: rs, acc =>
     match expandOne ns r acc with
@@ -306,12 +321,12 @@ def round (cfg : Cfg) (mode : CR) (st : RState) (argv : List (Str × Str)) : ROu
       | .unmodelled => .unmodelled
       | .exit2 => .exit2
       | .ok ns =>
-        match expandAll ns un (st.recs, st.resolved, st.classes) with
+        match expandAll ns un (st.recs, st.resolved, st.classes, st.hidden) with
         | .error e => .raise e
-        | .ok (recs, resolved, classes) =>
+        | .ok (recs, resolved, classes, hidden) =>
           match reResolve cfg mode recs with
           | .error e => .raise e
-          | .ok recs' => .ok { recs := recs', resolved := resolved, classes := classes, ctbl := ctbl }
+          | .ok recs' => .ok { recs := recs', resolved := resolved, classes := classes, hidden := hidden, ctbl := ctbl }
 
 /-- the rounds; `fuel` bounds their number (the code loops until nothing is unresolved) -/
 def loop (cfg : Cfg) (mode : CR) : Nat → RState → List (Str × Str) → ROut RState
@@ -327,7 +342,8 @@ def loop (cfg : Cfg) (mode : CR) : Nat → RState → List (Str × Str) → ROut
 def initState (cfg : Cfg) (mode : CR) (dest : Str) (root : Cls) : Except Exc RState :=
   match reResolve cfg mode (recsOf dest 1 [] false root.fields) with
   | .error e => .error e
-  | .ok recs => .ok { recs := recs, resolved := [], classes := [], ctbl := [] }
+  | .ok recs => .ok { recs := recs, resolved := [], classes := [], hidden := hiddenOf dest [] root.fields,
+                      ctbl := [] }
 
 /-- `_resolve_subgroups` -/
 def resolveSubgroups (cfg : Cfg) (mode : CR) (dest : Str) (root : Cls) (argv : List (Str × Str)) :
@@ -344,6 +360,7 @@ structure Res where
   leaves : List (Str × Val)        -- every active plain field: dotted destination ↦ value
   classes : List (Str × Str)       -- subgroup destination ↦ class instantiated there
   subgroups : List (Str × Val)     -- `namespace.subgroups`
+  hidden : List (Str × Val) := []  -- every active `cmd=False` field: dotted destination ↦ value
   deriving DecidableEq, Repr
 
 inductive Out
@@ -369,8 +386,15 @@ def finishParse (cfg : Cfg) (st : RState) (argv : List (Str × Str)) : Out :=
       .ok { leaves := (st.recs.filter (fun r => !r.isSub)).map
               (fun r => (r.dest, (ns.lookup r.dest).getD (.sc .none))),
             classes := st.classes,
+            -- the choice parser wrote its results into the very namespace the main parse starts from
+            -- (parsing.py:304-305,361,680-682), and argparse only fills in defaults for destinations
+            -- that are not there yet: an option the main parser does not see leaves the chosen key
             subgroups := (st.recs.filter (·.isSub)).map
-              (fun r => (r.dest, (ns.lookup r.dest).getD (.sc .none))) }
+              (fun r => (r.dest,
+                match lastFor true tbl r.dest argv, st.resolved.lookup r.dest with
+                | none, some k => .sc (.str k)
+                | _, _ => (ns.lookup r.dest).getD (.sc .none))),
+            hidden := st.hidden }
 
 def run (cfg : Cfg) (mode : CR) (dest : Str) (root : Cls) (argv : List (Str × Str)) : Out :=
   match resolveSubgroups cfg mode dest root argv with
